@@ -21,10 +21,23 @@ def make(P, f=lambda w: w):
     return {2: sp.Line, 3: sp.QuadraticBezier, 4: sp.CubicBezier}[len(z)](*z)
 
 
-def seg_case(ck, c, f=None, tag='plain', scale=1.0):
+def seg_case(ck, c, f=None, tag='plain', scale=1.0, reassigned_from=None):
     f = f or (lambda w: w)
-    seg = make(c['seg'], f)
     z = f(complex(*c['z']))
+    if reassigned_from is None:
+        seg = make(c['seg'], f)
+    else:
+        # an object that answered a query with other control points and was then edited in place must answer like a fresh one
+        seg = make(reassigned_from, f)
+        try:
+            seg.radialrange(z)
+            seg.bbox()
+            seg.length()
+        except Exception:      # noqa
+            pass
+        names = {2: ('start', 'end'), 3: ('start', 'control', 'end'), 4: ('start', 'control1', 'control2', 'end')}[len(c['seg'])]
+        for nm, w in zip(names, c['seg']):
+            setattr(seg, nm, f(complex(w[0], w[1])))
     W, n = c['W'], len(c['seg']) - 1
     wit = [math.sqrt(v / float(c['scale2'])) * scale for v in c['d2']]
     name = type(seg).__name__
@@ -105,8 +118,16 @@ def run(ck):
                workers=1, coverage=False)
     import cmath
     w = cmath.exp(1j * math.radians(30))
+    bydeg = {}
+    for c in r.cases:
+        bydeg.setdefault(len(c['seg']), [])
+        if c['seg'] not in bydeg[len(c['seg'])]:
+            bydeg[len(c['seg'])].append(c['seg'])
     for c in r.cases:
         seg_case(ck, c)
+        others = [sg for sg in bydeg[len(c['seg'])] if sg != c['seg']]
+        if others:
+            seg_case(ck, c, None, 'reassigned control points', 1.0, reassigned_from=others[(c['z'][0] + c['z'][1]) % len(others)])
         seg_case(ck, c, lambda v: 1e-3 * v + (2 - 5j), 'scaled 1e-3 + offset', 1e-3)
         seg_case(ck, c, lambda v: 1e4 * w * v, 'rotated 30 deg, scaled 1e4', 1e4)
     ck.sample('segment', r.cases[len(r.cases) // 2])
